@@ -340,7 +340,10 @@ def write_evidence(pid, c, tier, base_seed, recs, part_stats, wall, build_s, nvi
                 tot[k] = tot.get(k, 0) + v
         return dict(sorted(tot.items()))
     nontrivial = [r for r in recs if r.get("nontrivial")]
-    distinct = {(r.get("_part"), r.get("hist"), tuple(sorted((r.get("faults") or {}).keys())), r.get("sched_hash")) for r in nontrivial}
+    if c.get("distinct_by_hash"):
+        distinct = {(r.get("_part"), r.get("hash")) for r in nontrivial}
+    else:
+        distinct = {(r.get("_part"), r.get("hist"), tuple(sorted((r.get("faults") or {}).keys())), r.get("sched_hash")) for r in nontrivial}
     classes = {}
     for r in recs:
         classes[r.get("class", "?")] = classes.get(r.get("class", "?"), 0) + 1
